@@ -153,7 +153,7 @@ func planHuge(rc *rec, r *hlib.Rand) ([]opDesc, bool, bool) {
 	return nil, false, false
 }
 
-func runHugeTree(o *hlib.Out, seed uint64, k int64, emitOnly string) {
+func runHugeTree(o *hlib.Out, seed uint64, k int64, emitOnly map[string]bool) {
 	synVariant = k
 	saved := mainTimeout
 	mainTimeout = 15 * time.Minute
@@ -295,11 +295,21 @@ func runSynthetic(o *hlib.Out, r *hlib.Rand, thorough bool) {
 		nHuge = 3
 	}
 	for k := int64(0); k < nHuge; k++ {
-		runHugeTree(o, r.U64()%1000000, 200+k, "")
+		runHugeTree(o, r.U64()%1000000, 200+k, nil)
 	}
 	o.Stat("exhaustive_small_domain", 1)
 	o.Stat("syn_alignments", 8)
 	o.Stat("syn_max_len", 70)
+}
+
+// replay lines of the file-backed trees are grouped: one evaluation of the tree per (seed, variant)
+var hugeReplays = map[string]map[string]bool{}
+var hugeReplayOrder [][2]uint64
+
+func flushHugeReplays(o *hlib.Out) {
+	for _, sk := range hugeReplayOrder {
+		runHugeTree(o, sk[0], int64(sk[1]), hugeReplays[fmt.Sprintf("%d %d", sk[0], sk[1])])
+	}
 }
 
 func replaySyn(o *hlib.Out, r *hlib.Rand, rootHex, variant, path string, ops []opDesc) {
@@ -314,7 +324,12 @@ func replaySyn(o *hlib.Out, r *hlib.Rand, rootHex, variant, path string, ops []o
 		if err != nil || k < 200 {
 			return
 		}
-		runHugeTree(o, seed, k, path)
+		key := fmt.Sprintf("%d %d", seed, k)
+		if hugeReplays[key] == nil {
+			hugeReplays[key] = map[string]bool{}
+			hugeReplayOrder = append(hugeReplayOrder, [2]uint64{seed, uint64(k)})
+		}
+		hugeReplays[key][path] = true
 		return
 	}
 	root := hlib.UnHex(rootHex)
